@@ -20,7 +20,7 @@ from ..model import AnalysisError, ClassInfo, FunctionInfo, Model, is_main_guard
 from ..paths import Event, Path, PathEnumerator, find_calls
 from ..report import Report
 from ..resolve import CallGraph
-from ..sym import (FALSE, NONE, TRUE, Evaluator, Frame, Term, Unsupported, atoms_of, show, subst, subterms, sym, t_and, t_cmp, t_not,
+from ..sym import (number, FALSE, NONE, TRUE, Evaluator, Frame, Term, Unsupported, atoms_of, show, subst, subterms, sym, t_and, t_cmp, t_not,
                    t_or, satisfiable)
 from .common import call_arg, call_args, effect_calls, is_call_of, lifted_to_callers, loop_of, node_iterator_domain, norm_stmt, strip_identity_wrappers
 
@@ -166,7 +166,22 @@ def l1(model: Model, rep: Report):
                     return (it_ == ("call", ("attr", elem, "get_next_pointers"), (), ()) or it_ == ("attr", elem, "outgoing_pointers")) \
                         and t[2][0] == "bound" and list(conds_) == [t_not(t_cmp("is", t[2], endpoint))]
                 conj = list(ip.cond[1]) if ip.cond[0] == "and" else [ip.cond]
-                if not good and not exts and any(c_[0] == "not" and _full_successors(c_[1]) for c_ in conj):
+
+                def _tested_empty(c_):
+                    """the list a conjunct says is empty: ``not xs``, ``len(xs) == 0``, ``not len(xs) > 0``, ``len(xs) < 1``"""
+                    def len_of(t):
+                        return t[2][0] if t[0] == "call" and t[1] == "len" and len(t[2]) == 1 else None
+                    if c_[0] == "not" and c_[1][0] not in ("cmp", "eq"):
+                        return c_[1]
+                    if c_[0] == "eq" and number(c_[2]) == 0 and len_of(c_[1]) is not None:
+                        return len_of(c_[1])
+                    if c_[0] == "not" and c_[1][0] == "cmp" and c_[1][1] == ">" and len_of(c_[1][2]) is not None:
+                        return len_of(c_[1][2])
+                    if c_[0] == "not" and c_[1][0] == "cmp" and c_[1][1] == ">=" and c_[1][2][0] == "lin" and len(c_[1][2][1]) == 1 and c_[1][2][2] == -1 \
+                            and c_[1][2][1][0][1] == 1 and len_of(c_[1][2][1][0][0]) is not None:
+                        return len_of(c_[1][2][1][0][0])
+                    return None
+                if not good and not exts and any(_tested_empty(c_) is not None and _full_successors(_tested_empty(c_)) for c_ in conj):
                     # a node without successors inside the branch hands over nothing: the same as handing over the empty list
                     continue
                 if len(good) != 1:
